@@ -24,7 +24,7 @@ func init() {
 }
 
 func runC14(r *report.Run) {
-	r.SetRule("race-detector build, child process per run: 16 query workers (cache on, every stamped query kind, one query in six with a question type the DNS library has no name for, new ones all along the run) x a reloader walking through generations (every other run with a 1 ms reload timeout so that reloads time out while still running; full reloads to new directories/files, partial reloads after a real ApplyDiff on the primary / file replacement, failing reloads: missing path, unreadable, missing validation key) x a ReportBackendStats ticker x a WatchDBAndReload watcher with a ReloadChan consumer x (in part of the runs) a WatchControlDirAndReload watcher through which the successful reloads are requested by renaming reload/switchdb files into the control directory x (RocksDB, default reload timeout) a storm of several hundred back-to-back catch-ups with nothing to catch up under 8 query workers, followed by one partial reload on the idle server that has to complete (failure + goroutines blocked in the storage package at identical frames in two dumps = violation) x (CDB, default reload timeout) a storm of back-to-back full reloads alternating between two files under 4x NumCPU acquire/lookup/release workers x shutdown while queries are parked after reader acquisition (verif hook) and resumed afterwards; plus the production wiring (NewFBDNSDB with a 1 s periodic reload) shut down while a reload is parked in progress and the next tick is already pending; on CDB, RocksDB v1 and v2; repeated. Oracle: zero race-detector reports (deduplicated by entry-point pair), no panic/fatal error, every worker completes its fixed operation count before a generous watchdog; a stand-still of the progress counters (queries, reloads, stats reports) for 20 s is examined structurally: a deadlock is reported only when in three goroutine dumps 2 s apart every goroutine inside the serving code is blocked acquiring a sync lock (at least a waiting writer and a waiting reader) or idle, none runs or sits in a system/cgo call, and the blocked stacks are identical. non-trivial = run in which queries and reloads really overlapped (measured: queries completed while a reload was in progress); distinct by (backend, repeat)")
+	r.SetRule("race-detector build, child process per run: 16 query workers (cache on, every stamped query kind, one query in six with a question type the DNS library has no name for, new ones all along the run; every other query with a randomised letter case of the name) x a reloader walking through generations (every other run with a 1 ms reload timeout so that reloads time out while still running; full reloads to new directories/files, partial reloads after a real ApplyDiff on the primary / file replacement, failing reloads: missing path, unreadable, missing validation key) x a ReportBackendStats ticker x a WatchDBAndReload watcher with a ReloadChan consumer x (in part of the runs) a WatchControlDirAndReload watcher through which the successful reloads are requested by renaming reload/switchdb files into the control directory x (RocksDB, default reload timeout) a storm of several hundred back-to-back catch-ups with nothing to catch up under 8 query workers, followed by one partial reload on the idle server that has to complete (failure + goroutines blocked in the storage package at identical frames in two dumps = violation) x (CDB, default reload timeout) a storm of back-to-back full reloads alternating between two files under 4x NumCPU acquire/lookup/release workers x shutdown while queries are parked after reader acquisition (verif hook) and resumed afterwards; plus the production wiring (NewFBDNSDB with a 1 s periodic reload) shut down while a reload is parked in progress and the next tick is already pending; on CDB, RocksDB v1 and v2; repeated. Oracle: zero race-detector reports (deduplicated by entry-point pair), no panic/fatal error, every worker completes its fixed operation count before a generous watchdog; a stand-still of the progress counters (queries, reloads, stats reports) for 20 s is examined structurally: a deadlock is reported only when in three goroutine dumps 2 s apart every goroutine inside the serving code is blocked acquiring a sync lock (at least a waiting writer and a waiting reader) or idle, none runs or sits in a system/cgo call, and the blocked stacks are identical. non-trivial = run in which queries and reloads really overlapped (measured: queries completed while a reload was in progress); distinct by (backend, repeat)")
 	r.Assume("GORACE=halt_on_error=0 with log files; reports are counted from the logs, never from exit codes; a watchdog firing without a crash is inconclusive")
 	repeats := r.Pick(2, 5)
 	gens := r.Pick(25, 120)
@@ -213,6 +213,17 @@ func c14Worker(args []string) int {
 						// question types the DNS library has no name for, new ones all along the run (per-type bookkeeping
 						// is created on first sight, concurrently with every other worker)
 						sq.qtype = uint16(60000 + (i*workers+c)%4000)
+					}
+					if (c+i)%2 == 0 {
+						// resolvers randomise the letter case of the names they ask (0x20): concurrent hits on one cache
+						// entry in different spellings
+						bs := []byte(sq.name)
+						for k := range bs {
+							if bs[k] >= 'a' && bs[k] <= 'z' && (k*7+i*3+c)%3 == 0 {
+								bs[k] -= 32
+							}
+						}
+						sq.name = string(bs)
 					}
 					l.query(100+c, sq, "w")
 				}()
